@@ -118,7 +118,7 @@ static void trace_call(size_t a, size_t b, size_t c, size_t d, size_t r, const d
 static decres_t decode_frame(LZ4F_dctx* dctx, const u8* frame, size_t n, int policy, int skipChecksums, const u8* dict, size_t dictSize, u64 pseed)
 {
     decres_t d; size_t ip = 0; LZ4F_decompressOptions_t opt; u64 save = g_rs; int idle = 0; size_t hint = 1;
-    int tracing = g_trace_fresh && (n <= 20000 ? (g_thorough || n > 64 || policy != 1 || (++g_tracectr2 % 3) == 0) : (n <= 300000 && (++g_tracectr % 4) == 0));
+    int tracing = g_trace_fresh && (n <= 20000 ? (g_thorough || n > 64 || policy != 1 || (++g_tracectr2 % 3) == 0) : (n <= 300000 && policy != 4 && (++g_tracectr % 4) == 0));      /* policy 4 on a long input: thousands of calls that are each offered everything (quadratic for the list model) */
     memset(&d, 0, sizeof d); memset(&opt, 0, sizeof opt); opt.skipChecksums = (unsigned)skipChecksums;
     dalloc_t* da = da_of(dctx); size_t in0 = da ? da->sz[0] : 0, out0 = da ? da->sz[1] : 0;
     g_trace.n = 0;
@@ -250,6 +250,57 @@ static void decode_case(LZ4F_dctx* dctx, const u8* bytes, size_t n, size_t dictS
 static void genfunc_rec(int fn, long long a, long long b, long long c, long long d, long long e, long long result)
 { rec_t r; rec_begin(&r, OP_GENFUNC); rec_int(&r, fn); rec_int(&r, a); rec_int(&r, b); rec_int(&r, c); rec_int(&r, d); rec_int(&r, e); rec_int(&r, result); rec_write(&r); }
 
+/* One linked-blocks frame of more than 1 GB decoded into ONE contiguous destination with stableDst = 1: the history LZ4F_decompress keeps inside the
+ * destination grows beyond 1 GB (the "dictSize > 1 GB" clamp in front of both LZ4_decompress_safe_usingDict calls).  The frame is produced and consumed
+ * piecewise (4 MB updates), the content is regenerated for comparison: period 48 KB with sparse noise, so every block starts with matches that reach
+ * into the previous block. */
+static u64 n_big_bytes;
+static void big_contiguous_decode(size_t total)
+{
+    enum { CH = 4 << 20, PER = 49152 };
+    LZ4F_cctx* cc = NULL; LZ4F_dctx* dc = NULL; LZ4F_preferences_t prefs; LZ4F_decompressOptions_t opt; u8* base = xalloc(PER); u8* chunk = xalloc(CH); u8* cbuf; size_t ccap;
+    u8* dst = (u8*)malloc(total); size_t fedIn = 0, outPos = 0, checked = 0, r, i; rec_t rr; u64 noise = 0x9E3779B97F4A7C15ULL; int done = 0, bad = 0;
+    if (!dst) { free(base); free(chunk); return; }                      /* not enough memory here: the scenario is skipped (reported through the statistics) */
+    memset(&prefs, 0, sizeof prefs); prefs.frameInfo.blockMode = LZ4F_blockLinked; prefs.frameInfo.blockSizeID = LZ4F_max4MB; prefs.frameInfo.contentChecksumFlag = LZ4F_contentChecksumEnabled;
+    memset(&opt, 0, sizeof opt); opt.stableDst = 1;
+    for (i = 0; i < PER; i++) base[i] = (u8)rnd();
+    ccap = LZ4F_compressBound(CH, &prefs) + 64; cbuf = xalloc(ccap);
+    LZ4F_createCompressionContext(&cc, LZ4F_VERSION); LZ4F_createDecompressionContext(&dc, LZ4F_VERSION);
+    rec_begin(&rr, OP_FRAME + 103); rec_int(&rr, (long long)total); cur_set(&rr);
+    r = LZ4F_compressBegin(cc, cbuf, ccap, &prefs);
+    while (!bad && !done) {
+        size_t have = r, off = 0;
+        if (LZ4F_isError(r)) { c_fail(&rr, "compression_call_failed_big"); bad = 1; break; }
+        while (off < have) {       /* feed what the compressor just produced */
+            size_t in = have - off, o = total - outPos; size_t dr = LZ4F_decompress(dc, dst + outPos, &o, cbuf + off, &in, &opt); n_calls++;
+            if (LZ4F_isError(dr)) { char why[96]; snprintf(why, sizeof why, "roundtrip_decode_error_big_%s_at_%zu", LZ4F_getErrorName(dr), outPos); c_fail(&rr, why); bad = 1; break; }
+            off += in; outPos += o;
+            if (dr == 0) { done = 1; break; }
+            if (in == 0 && o == 0) { c_fail(&rr, "decoder_no_progress_big"); bad = 1; break; }
+        }
+        /* compare what has been decoded so far with the regenerated content */
+        while (!bad && checked + CH <= outPos) {
+            u64 nz = 0x9E3779B97F4A7C15ULL ^ (u64)(checked / CH); size_t k;
+            for (k = 0; k < CH; k++) chunk[k] = base[(checked + k) % PER];
+            for (k = 0; k < 40; k++) { nz = nz * 6364136223846793005ULL + 1442695040888963407ULL; chunk[(nz >> 33) % CH] ^= (u8)(nz >> 13) | 1; }
+            if (memcmp(chunk, dst + checked, CH) != 0) { char why[96]; size_t q = 0; while (chunk[q] == dst[checked + q]) q++; snprintf(why, sizeof why, "roundtrip_content_mismatch_big_at_%zu", checked + q); c_fail(&rr, why); bad = 1; }
+            checked += CH;
+        }
+        if (bad || done) break;
+        if (fedIn < total) {
+            u64 nz = 0x9E3779B97F4A7C15ULL ^ (u64)(fedIn / CH); size_t k;
+            for (k = 0; k < CH; k++) chunk[k] = base[(fedIn + k) % PER];
+            for (k = 0; k < 40; k++) { nz = nz * 6364136223846793005ULL + 1442695040888963407ULL; chunk[(nz >> 33) % CH] ^= (u8)(nz >> 13) | 1; }
+            r = LZ4F_compressUpdate(cc, cbuf, ccap, chunk, CH, NULL); fedIn += CH; n_calls++;
+        } else r = LZ4F_compressEnd(cc, cbuf, ccap, NULL);
+    }
+    (void)noise;
+    if (!bad && (!done || outPos != total || checked != total)) c_fail(&rr, "roundtrip_decode_not_complete_big");
+    n_big_bytes += outPos;
+    cur_clear();
+    LZ4F_freeCompressionContext(cc); LZ4F_freeDecompressionContext(dc); free(base); free(chunk); free(cbuf); free(dst);
+}
+
 int main(int argc, char** argv)
 {
     const char* mode; int thorough, i; u64 seed; u8* data; size_t maxn; LZ4F_cctx* cctx; LZ4F_dctx* dctx;
@@ -261,6 +312,7 @@ int main(int argc, char** argv)
     maxn = thorough ? (9u << 20) : (600u << 10); data = xalloc(maxn + 16);
     LZ4F_createCompressionContext(&cctx, LZ4F_VERSION); dctx = new_dctx(0);
 
+    if (!strcmp(mode, "c03")) big_contiguous_decode(((size_t)1 << 30) + (48u << 20));
     if (!strcmp(mode, "c03") || !strcmp(mode, "c07")) {
         int ncases = thorough ? 6000 : 260;
         for (i = 0; i < ncases; i++) {
@@ -562,6 +614,38 @@ int main(int argc, char** argv)
                              || fi.blockSizeID != (prefs.frameInfo.blockSizeID ? prefs.frameInfo.blockSizeID : LZ4F_max64KB)) c_fail(&r, "getFrameInfo_wrong_parameters");
                     LZ4F_resetDecompressionContext(dctx);
                 }
+                {   /* getFrameInfo AFTER decoding has started (the header went through LZ4F_decompress: all at once with no room for output, or in pieces):
+                     * no input is read, the parameters of the header are reported, decoding resumes where it stood */
+                    int how; 
+                    for (how = 0; how < 3; how++) {
+                        LZ4F_frameInfo_t fi; size_t hs = LZ4F_headerSize(a.p, a.n), fed = 0, sz, hr; int bad = 0; u8 small[8];
+                        if (LZ4F_isError(hs) || a.n < hs + 4) break;
+                        LZ4F_resetDecompressionContext(dctx);
+                        while (!bad && fed < hs) {      /* how 0: everything offered, output capacity 0; how 1: header bytes in pieces of 1..5; how 2: exactly the header */
+                            size_t in = how == 0 ? a.n - fed : (how == 1 ? 1 + rndn(5) : hs), o = how == 0 ? 0 : sizeof small, res; u8* src;
+                            if (how != 0 && in > hs - fed) in = hs - fed;
+                            src = xalloc(in); memcpy(src, a.p + fed, in);
+                            res = LZ4F_decompress(dctx, small, &o, src, &in, NULL); n_calls++; free(src);
+                            if (LZ4F_isError(res) || o != 0) { bad = 1; break; }
+                            if (in == 0) break;
+                            fed += in;
+                        }
+                        if (bad || fed < hs) { LZ4F_resetDecompressionContext(dctx); continue; }
+                        memset(&fi, 0x5A, sizeof fi); sz = a.n - fed;
+                        { u8* src = xalloc(sz); memcpy(src, a.p + fed, sz); hr = LZ4F_getFrameInfo(dctx, &fi, src, &sz); free(src); }
+                        if (LZ4F_isError(hr)) c_fail(&r, "getFrameInfo_failed");
+                        else if (sz != 0) c_fail(&r, "getFrameInfo_consumed_input_after_start");
+                        else if (fi.blockMode != prefs.frameInfo.blockMode || fi.contentChecksumFlag != prefs.frameInfo.contentChecksumFlag || fi.blockChecksumFlag != prefs.frameInfo.blockChecksumFlag
+                                 || fi.contentSize != prefs.frameInfo.contentSize || fi.dictID != prefs.frameInfo.dictID || fi.frameType != LZ4F_frame
+                                 || fi.blockSizeID != (prefs.frameInfo.blockSizeID ? prefs.frameInfo.blockSizeID : LZ4F_max64KB)) c_fail(&r, "getFrameInfo_wrong_parameters_after_start");
+                        else {   /* and the rest of the frame still decodes to the content */
+                            decres_t d5 = decode_frame(dctx, a.p + fed, a.n - fed, rndp(50) ? 0 : 2, 0, NULL, 0, rnd()); n_decodes++;
+                            if (d5.verdict != 0 || d5.out.n != n || (n && memcmp(d5.out.p, data, n) != 0)) c_fail(&r, "reused_dctx_wrong_content_after_getFrameInfo");
+                            free(d5.out.p);
+                        }
+                        LZ4F_resetDecompressionContext(dctx);
+                    }
+                }
                 {   /* a skippable frame then this frame in one buffer, consumed frame by frame on the context as it is now (it has a history);
                      * LZ4F_getFrameInfo in front of the skippable frame (it consumes its magic number) in most cases; any feed size incl. 1..3 bytes */
                     u8* buf = xalloc(48 + fsz); u32 magic = 0x184D2A50u + rndn(16), ssz = rndn(40); size_t pos = 0, k2, total; decres_t d3; int pol = (int[]){1, 1, 2, 0}[rndn(4)];
@@ -587,7 +671,7 @@ int main(int argc, char** argv)
     LZ4F_freeCompressionContext(cctx); LZ4F_freeDecompressionContext(dctx);
     harness_done();
     stat_u("calls", n_calls); stat_u("reused_cctx_bytes_differ_from_fresh", n_reused_differs); stat_u("dictionary_derived_contents", n_dict_derived); stat_u("forged_content_sizes", n_forged_size); stat_u("headers_alone", n_headers); stat_u("frames_for_end_to_end_model", n_model_frames); stat_u("frames", n_frames); stat_u("decodes", n_decodes); stat_u("flushes", n_flush); stat_u("uncompressed_updates", n_uncomp); stat_u("volatile_sources", n_volatile);
-    stat_u("mode_switches_with_buffered_data", n_switch); stat_u("dec_complete", n_dec_ok); stat_u("dec_error", n_dec_err); stat_u("dec_incomplete", n_dec_incomplete); stat_u("records", g_nrecords); stat_u("dstage_traces", n_traces); stat_u("dstage_traced_calls", n_trace_calls);
+    stat_u("mode_switches_with_buffered_data", n_switch); stat_u("dec_complete", n_dec_ok); stat_u("dec_error", n_dec_err); stat_u("dec_incomplete", n_dec_incomplete); stat_u("records", g_nrecords); stat_u("bytes_decoded_into_one_contiguous_buffer", n_big_bytes); stat_u("dstage_traces", n_traces); stat_u("dstage_traced_calls", n_trace_calls);
     stat_u("cfails", (u64)g_cfails);
     free(data); free(g_dictbuf);
     return g_cfails ? 1 : 0;
